@@ -118,6 +118,53 @@ def run_jobs(jobs, wall_budget_s, per_job_cap_s=None, sample_every=None, progres
         pass
     return results, skipped
 
+def deepen(results, t_end, ran_keys, max_rounds=3, growth=8.0, per_job_cap_s=600):
+    """Iterate the preemption bound: while wall time of the tier is left, re-explore the programs whose base
+    bound completed with P+1 (cheapest first, as many as the remaining cpu time is predicted to hold), then
+    those again with P+2, ...  Results are tagged r['bonus'] = round; a bonus run cut by the time limit does
+    not make the base tier inexhaustive (finish() reports the rounds separately)."""
+    bonus, rounds = [], []
+    prev = results
+    for rnd in range(1, max_rounds + 1):
+        left = t_end - time.time()
+        if left < 90:
+            break
+        cand = []
+        for r in prev:
+            if 'error' in r or r.get('illegal') or not r.get('complete') or r.get('violations'):
+                continue
+            j = r['job']
+            if j.P >= 99:
+                continue
+            cost = max(r.get('wall', 0.05), 0.05) * growth
+            if cost > min(left, per_job_cap_s) * 0.8:
+                continue
+            nj = Job(j.cfg, j.family, j.program, j.P + 1, j.E, j.flags, j.defs, j.tag, j.note)
+            if nj.key() in ran_keys:
+                continue
+            cand.append((cost, nj))
+        cand.sort(key=lambda c: c[0])
+        budget = left * NPROC * 0.5
+        chosen = []
+        for c, nj in cand:
+            if c > budget:
+                break
+            budget -= c
+            chosen.append(nj)
+            ran_keys.add(nj.key())
+        if not chosen:
+            break
+        res2, sk2 = run_jobs(chosen, left, per_job_cap_s=min(left, per_job_cap_s), progress=False)
+        for r in res2:
+            r['bonus'] = rnd
+        done = [r for r in res2 if 'error' not in r and r.get('complete')]
+        rounds.append({'round': rnd, 'bound': 'P+%d' % rnd, 'programs_started': len(res2), 'programs_completed': len(done),
+                       'programs_cut_by_time': len([r for r in res2 if 'error' not in r and not r.get('complete')]) + len(sk2),
+                       'candidates': len(cand)})
+        bonus += res2
+        prev = res2
+    return bonus, rounds
+
 _sym_cache = {}
 def symbolize(nsmc, pcs):
     """pc -> 'function (file:line)' using addr2line on the non-PIE binary."""
@@ -253,7 +300,7 @@ def validate_evidence(ev):
     except FileNotFoundError:
         pass
 
-def finish(prop, tier, level, results, skipped, t0, extra_cov=None, assumptions=(), technique_note=''):
+def finish(prop, tier, level, results, skipped, t0, extra_cov=None, assumptions=(), technique_note='', deepening=None):
     """Aggregate worker results, handle violations / known findings, write evidence, return exit code."""
     errors = [r for r in results if 'error' in r]
     ok = [r for r in results if 'error' not in r and not r.get('illegal')]
@@ -267,7 +314,7 @@ def finish(prop, tier, level, results, skipped, t0, extra_cov=None, assumptions=
     execs = sum(r['execs'] for r in ok)
     det_checked = sum(r.get('determinism_checked', 0) for r in ok)
     det_bad = [r for r in ok if r.get('determinism_ok') is False]
-    capped = [r for r in ok if not r['complete']]
+    capped = [r for r in ok if not r['complete'] and not r.get('bonus')]
     outcomes = set()
     per_prog_outcomes = 0
     for r in ok:
@@ -352,11 +399,14 @@ def finish(prop, tier, level, results, skipped, t0, extra_cov=None, assumptions=
         'max_depth': max([r['max_depth'] for r in ok] or [0]),
         'distinct_outcomes_over_all_programs': len(outcomes),
         'sync_call_sites_exercised_of_present_per_source_file': {k: site_coverage(build_of[k], v) for k, v in sites.items()},
-        'budgets': sorted({'%s threads=%d P=%s E=%d%s' % (r['config'], r['threads'], 'unbounded' if r['P'] >= 99 else r['P'], r['E'], ' stateless+hb' if r['hb'] else '') for r in ok}),
+        'budgets': sorted({'%s threads=%d P=%s E=%d%s' % (r['config'], r['threads'], 'unbounded' if r['P'] >= 99 else r['P'], r['E'], ' stateless+hb' if r['hb'] else '') for r in ok if r['complete']}),
         'exhaustive': exhaustive,
         'violating_schedules_found': total_viol,
         'explanation': technique_note,
     }
+    if deepening:
+        cov['iterated_bound'] = {'note': 'after the listed budgets completed, programs were re-explored with a larger preemption budget while tier time was left; '
+                                         'a re-exploration cut by time leaves the base bound complete and is not counted in programs_capped', 'rounds': deepening}
     if extra_cov:
         cov.update(extra_cov)
     ev = {'property_id': prop, 'tier': tier, 'seed': SEED, 'level': level, 'coverage': cov,
